@@ -42,6 +42,16 @@ def to_events(lines):
             evs.append((f"(ETake {a})", b >> 1, b & 1))
         elif k == 26:
             evs.append((f"(EReturn {a - 1})", 0, 0))
+        elif k == 29 and G is not None:
+            # a slot swap done through swap_strings_slot with a non-Strings value: (group a, bucket, new kind, old kind)
+            bkt, newk, oldk = b >> 4, (b >> 2) & 3, b & 3
+            if newk == 0 and oldk == 2:
+                evs.append((f"(ETake {bkt})", a, 1))          # strings taken
+            elif newk == 1:
+                evs.append((f"(ETake {bkt})", a, 0))          # bucket parks: the model requires that no strings were there
+                if oldk == 2:
+                    evs[-1] = (f"(ETake {bkt})", a, 0)
+            # newk == 0 and oldk != 2: a probe that changes nothing: no model event
     # POP g is logged after the pop itself: restore pop order (group order)
     out = []
     for e in evs:
